@@ -11,7 +11,10 @@ fn main() {
         "int8" => int8::main_int8(),
         "qops" => qops::main_qops(),
         "bq" => bq::main_bq(),
-        "int8-repro" => int8::main_repro(),
+        "int8-repro" => {
+            int8::main_repro();
+            qops::main_repro()
+        }
         "f32-kernels" => println!(
             "{}",
             vcommon::json!(rten_gemm::verif::f32_kernel_names())
